@@ -281,24 +281,40 @@ Definition p_comp (unit : ascii) (s : string) : option (option Z) * string :=
   | _ :: _, String c r' => if (c =? unit)%char then (Some (Some (num ds)), r') else (None, s)
   | _, _ => (None, s)
   end.
-(* the component is absent (None, s) or present; a present component above u64 makes the conversion fail *)
+(* the component is absent (None, s) or present (Some (Some value)); `comp_fits`: the digits parse as a u64 *)
 Definition comp_val (c : option (option Z)) : Z := match c with Some (Some v) => v | _ => 0 end.
 Definition comp_present (c : option (option Z)) : bool := match c with Some _ => true | None => false end.
 Definition comp_fits (c : option (option Z)) : bool := match c with Some (Some v) => v <=? u64_max | _ => true end.
+Definition i64_max : Z := 9223372036854775807.
 
-(* ^-?P([0-9]+Y)?([0-9]+M)?$ *)
-Definition parse_ymd (s : string) : option Z :=
+(* ^-?P([0-9]+Y)?([0-9]+M)?$
+   reject_oversized = true (after the fix): a written component that does not fit u64 makes the literal invalid;
+   false (before): such a component was skipped (`if let Ok(years) = ...parse::<u64>() { .. }`) and the rest of the literal was
+   read as if it had not been written.  In both variants the total number of months must fit i64
+   (i64::try_from(years), checked_mul(12), checked_add; i64::try_from(months), checked_add), else the literal is invalid. *)
+Section Ymd.
+Variable reject_oversized : bool.
+Definition parse_ymd_gen (s : string) : option Z :=
   let (neg, s1) := match s with String "-"%char r => (true, r) | _ => (false, s) end in
   match s1 with
   | String "P"%char s2 =>
     let (cy, s3) := p_comp "Y" s2 in
     let (cm, s4) := p_comp "M" s3 in
     if String.eqb s4 "" && (comp_present cy && comp_fits cy || comp_present cm && comp_fits cm) then
-      let total := (if comp_fits cy then comp_val cy * 12 else 0) + (if comp_fits cm then comp_val cm else 0) in
-      Some (if neg then - total else total)
+      if reject_oversized && negb (comp_fits cy && comp_fits cm) then None else
+      let y := if comp_fits cy then comp_val cy else 0 in
+      let m := if comp_fits cm then comp_val cm else 0 in
+      if (y <=? i64_max) && (y * 12 <=? i64_max) && (m <=? i64_max) && (y * 12 + m <=? i64_max) then
+        let total := y * 12 + m in
+        Some (if neg then - total else total)
+      else None
     else None
   | _ => None
   end.
+End Ymd.
+Definition parse_ymd := parse_ymd_gen true.
+(* the code before the repair of the oversized components *)
+Definition parse_ymd_orig := parse_ymd_gen false.
 
 Definition print_ymd (n : Z) :=
   let a := Z.abs n in let y := a / 12 in let m := a mod 12 in
@@ -310,9 +326,12 @@ Definition print_ymd (n : Z) :=
   | true, true => sg ++ "P" ++ dec y ++ "Y" ++ dec m ++ "M"
   end.
 
-(* REGEX_DAYS_AND_TIME: -?P (digits D)? (T (digits H)? (digits M)? (digits (. digits-or-nothing)? S)?)? ; after the fix a text ending in T is rejected *)
+(* REGEX_DAYS_AND_TIME: -?P (digits D)? (T (digits H)? (digits M)? (digits (. digits-or-nothing)? S)?)? ; after the fix a text ending in T is rejected.
+   reject_oversized = true (after the fix): a written days / hours / minutes / seconds number that does not fit u64 makes the
+   literal invalid; false (before): it was skipped and the other components were read as if it had not been written. *)
 Section Dtd.
 Variable trailing_t_ok : bool.
+Variable reject_oversized : bool.
 Definition parse_dtd_gen (s : string) : option Z :=
   let (neg, s1) := match s with String "-"%char r => (true, r) | _ => (false, s) end in
   match s1 with
@@ -321,6 +340,8 @@ Definition parse_dtd_gen (s : string) : option Z :=
     let fin (ch cmi : option (option Z)) (sec : option (Z * Z)) (any_t : bool) :=
       let ok c := comp_present c && comp_fits c in
       let sec_ok := match sec with Some (v, _) => v <=? u64_max | None => false end in
+      let sec_fits := match sec with Some (v, _) => v <=? u64_max | None => true end in
+      if reject_oversized && negb (comp_fits cd && comp_fits ch && comp_fits cmi && sec_fits) then None else
       if ok cd || ok ch || ok cmi || sec_ok then
         let v c := if comp_fits c then comp_val c else 0 in
         let total := v cd * DAY_NS + v ch * HOUR_NS + v cmi * MIN_NS +
@@ -349,8 +370,11 @@ Definition parse_dtd_gen (s : string) : option Z :=
   | _ => None
   end.
 End Dtd.
-Definition parse_dtd := parse_dtd_gen false.
-Definition parse_dtd_orig := parse_dtd_gen true.
+Definition parse_dtd := parse_dtd_gen false true.
+(* the pinned commit: a trailing T accepted, oversized components skipped *)
+Definition parse_dtd_orig := parse_dtd_gen true false.
+(* the code before the repair of the oversized components (trailing T already rejected) *)
+Definition parse_dtd_skip := parse_dtd_gen false false.
 
 Definition print_dtd (n : Z) :=
   let a := Z.abs n in
@@ -364,8 +388,14 @@ Definition print_dtd (n : Z) :=
 
 (* duration(text): years-and-months first, then days-and-time *)
 Inductive dur := DYm (months : Z) | DDt (nanos : Z).
-Definition parse_duration (s : string) : option dur :=
-  match parse_ymd s with
+Section Duration.
+Variable pymd pdtd : string -> option Z.
+Definition parse_duration_gen (s : string) : option dur :=
+  match pymd s with
   | Some n => Some (DYm n)
-  | None => match parse_dtd s with Some n => Some (DDt n) | None => None end
+  | None => match pdtd s with Some n => Some (DDt n) | None => None end
   end.
+End Duration.
+Definition parse_duration := parse_duration_gen parse_ymd parse_dtd.
+(* before the repair of the oversized components *)
+Definition parse_duration_orig := parse_duration_gen parse_ymd_orig parse_dtd_skip.
